@@ -313,6 +313,15 @@ func (c18) Eval(c *Case) (*Violation, bool) {
 		}
 		return nil
 	}
+	// which target an operation works for: the file its task read last
+	owner := make([]string, len(base.Trace))
+	lastRead := map[string]string{}
+	for i, op := range base.Trace {
+		if op.Op == "readfile" {
+			lastRead[op.Task] = op.Path
+		}
+		owner[i] = lastRead[op.Task]
+	}
 	nfaults, ncrash, nimg := 0, 0, 0
 	for _, op := range base.Trace {
 		kinds := faultKindsFor(op.Op)
@@ -353,9 +362,9 @@ func (c18) Eval(c *Case) (*Violation, bool) {
 					return v, false
 				}
 				// other targets must not be prevented: a fault on the temp file of one target leaves the others complete
-				if len(targets) > 1 && strings.HasPrefix(c.Sub, "format") {
+				if c.Sub == "format-n" {
 					for _, t := range targets {
-						if !strings.Contains(op.Path, baseName(t)) && o.FS[t] != newc[t] && newc[t] != old[t] {
+						if owner[op.N] != "" && owner[op.N] != t && o.FS[t] != newc[t] && newc[t] != old[t] {
 							c.Faults = map[int]simrt.Fault{op.N: {Kind: k, Arg: a}}
 							return &Violation{Signature: "failure-prevents-other-file", Msg: fmt.Sprintf("%s: %s was not rewritten although the fault hit another file", what, t)}, false
 						}
